@@ -196,7 +196,7 @@ func execC09(e *Env, pp any) {
 			if ok && err == nil && (c.Kind == KUnary || r.CFinalSet) {
 				e.Violate(prop, "success-after-failure", site, "call %d started after the transport failed and reported success", id)
 			}
-			if c.Kind != KUnary && r.NewStreamErr == nil && readsAll(c.CProg) && !r.CFinalSet {
+			if c.Kind != KUnary && r.NewStreamErr == nil && readsAll(c.CProg) && !r.CFinalSet && !r.CStubDropped {
 				e.Violate(prop, "no-error", site, "stream %d started after the failure never saw an error", id)
 			}
 			continue
